@@ -223,8 +223,33 @@ def structure_case(draw):
             ck = ck + "-int"
         else:
             cell = C.tolist()
+    hub = None
+    if draw(hperm.integers(0, 9)) == 0:
+        # a crowded site: one large atom with 24-36 small atoms within bonding distance (a solvated ion, a disordered
+        # site with all alternatives listed); the hub is listed before, among or after its partners
+        hub = draw(st.sampled_from(["Cs", "Fr", "Ba", "Rb", "K"]))
+        light = draw(st.sampled_from(["H", "H", "F", "D"]))
+        m = draw(hperm.integers(24, 36))
+        c = cutoff(hub, light, radii)
+        centre = geom.cart(C, [draw(st.floats(0, 0.999)) for _ in range(3)])
+        Rh = np.asarray(draw(gen_geom.random_rotation()))
+        shell = []
+        for q in range(m):
+            z = 1 - 2 * (q + 0.5) / m
+            phi = q * 2.399963229728653
+            u = np.array([np.sqrt(1 - z * z) * np.cos(phi), np.sqrt(1 - z * z) * np.sin(phi), z]) @ Rh.T
+            shell.append(centre + u * c * (1 + draw(st.sampled_from([-0.05, -0.05, -0.2, -1e-3, 1e-3, 0.05]))))
+        keep = min(n, 3)
+        where = draw(hperm.integers(0, keep))
+        new_els = els[:where] + [hub] + els[where:keep] + [light] * m
+        new_pos = pos[:where] + [centre.tolist()] + pos[where:keep] + [np.asarray(x).tolist() for x in shell]
+        if draw(st.booleans()):
+            order = list(draw(hperm.permutations(range(len(new_els)))))
+            new_els, new_pos = [new_els[i] for i in order], [new_pos[i] for i in order]
+        els, pos = new_els, [geom.wrap(C, x).tolist() if cell is not None else list(x) for x in new_pos]
+        n = len(els)
     xf = draw(st.sampled_from(["shift", "permute", "none", "edit"]))
-    case = {"els": els, "pos": pos, "cell": cell, "xf": xf, "cell_cls": ck}
+    case = {"els": els, "pos": pos, "cell": cell, "xf": xf, "cell_cls": ck, "hub": hub}
     if xf == "shift":
         case["v"] = [draw(st.floats(-15, 15)) for _ in range(3)]
     elif xf == "permute":
@@ -288,6 +313,8 @@ def structure_oracle(case, stats):
                             (k, info2[k][0], info2[k][1], "missing" if k in w2 else "spurious"))
     stats.count("cell:" + case["cell_cls"])
     stats.count("xf:" + case["xf"])
+    if case.get("hub"):
+        stats.count("crowded-site(24+ partners)")
     stats.count("bonds:%s" % (len(want) if len(want) < 5 else "5+"))
     nt = any(abs(v[0] / v[1] - 1) < 2e-3 for v in info.values()) or any(info[k][2] - info[k][0] > 1e-9 for k in want)
     if nt:
